@@ -3,6 +3,10 @@
 import json
 props=[json.loads(l) for l in open('/verif/properties.jsonl')]
 claimed={
+ "C09": dict(level="model_checking",
+   text="ExpandSpec with SkipSchemas runs from SSA on worlds whose parameters, responses and path items are imported from other directories with schema references pointing back to the root, to their own and to a third document (all combinations); element-level $refs, untouched definitions, validity of rebased schema $refs from the root location, bisimilarity, and equality of a subsequent full expansion with the direct one are asserted.",
+   note="Trusted: as C02. Bounds: 3 documents, 3 schema slots, 2 directory layouts.",
+   design="4 C09", technique="bounded symbolic execution of go/ssa over exhaustively enumerated small reference graphs + SMT (z3), counterexample replay"),
  "C10": dict(level="model_checking",
    text="Each single-element entry point runs from SSA on every small single-document reference graph; the result, placed back into its root, must be bisimilar to the original element, leave only cycle cut-points that resolve against the root, and the root's JSON and the caller's options must be unchanged.",
    note="Trusted: as C02. Bounds: 2 definitions, 1 parameter/response hop, 8 entry-point variants.",
